@@ -97,6 +97,13 @@ def decode_unknown(sym, n_suffix, with_respin):
     sym.check("unknown-suffix-rejected", raised)
 
 
+import C05
+
+# the legacy (pre-0.3) composeinfo reader derives date / type / respin from the id (shared with C05): also when the
+# document carries type/date/respin fields that say something else
+legacy_reader = C05.composeinfo_old
+
+
 def jobs(tier, seed):
     big = tier == "thorough"
     out = []
@@ -119,13 +126,18 @@ def jobs(tier, seed):
             out.append({"harness": "decode_documented", "params": {"suffix": suf, "ctype": ct, "with_respin": wr, "n_prefix": 12 if big else 8}})
     for wr in (False, True):
         out.append({"harness": "decode_unknown", "params": {"n_suffix": 8, "with_respin": wr}})
+    from productmd.composeinfo import COMPOSE_TYPES as _CT
+    for ctype in _CT:
+        for stale in (False, True):
+            out.append({"harness": "legacy_reader", "params": {"layout": "0.0-0.2", "ctype": ctype, "layered": False, "with_label": False, "stale": stale}})
     return out
 
 
 META = {
-    "expected_covers": {"create_decode": ["created", "decoded"], "decode_documented": ["decoded"], "decode_unknown": ["called"]},
+    "expected_covers": {"create_decode": ["created", "decoded"], "decode_documented": ["decoded"], "decode_unknown": ["called"], "legacy_reader": ["loaded", "rewritten"]},
     "assumptions": [
         "release short names over [A-Za-z0-9_-], versions over [A-Za-z0-9.] accepted by the release validators; dates are 8 ASCII digits; respin in [0, 10^8)",
-        "legacy (pre-0.3) documents, whose date/type/respin exist only inside the id, are checked under C05",
+        "legacy (pre-0.3) documents: the conversion harness of C05 (layout 0.0-0.2, every compose type); the document may also carry type/date/respin fields "
+        "that disagree with the id - before 0.3 the id is authoritative",
     ],
 }
